@@ -682,23 +682,45 @@ func c02g(c *Ctx) {
 		for _, call := range callsToIn(m.fn, rs) {
 			n++
 			d := c.PC(m.fn).At(call.Block())
-			ok := !d.unknown && len(d.cs) > 0 && singleLit != ""
-			for _, cj := range d.cs {
-				has := false
-				for _, l := range cj {
-					if l == singleLit {
-						has = true
+			everyConj := func(d dnf, lit string) bool {
+				if d.unknown || len(d.cs) == 0 || lit == "" {
+					return false
+				}
+				for _, cj := range d.cs {
+					if !hasLit(cj, lit) {
+						return false
 					}
 				}
-				if !has {
-					ok = false
+				return true
+			}
+			ok := everyConj(d, singleLit)
+			if !ok && m.fn != be {
+				// the helper is entered only where the caller already excluded a single operand
+				ok = true
+				sites := callsToIn(be, m.fn)
+				for _, cs := range sites {
+					if !everyConj(c.PC(be).At(cs.Block()), "-$1") {
+						ok = false
+					}
 				}
+				ok = ok && len(sites) > 0
 			}
 			c.Check(ok, fmt.Sprintf("right-side-call#%d/requires-not-single", n), c.W.Pos(call.Pos()), "the right-side parser is entered only when more than one operand is allowed", "parseRightSideExpression can be entered although a single operand was requested ["+d.String()+"]: the operand of && would absorb a following operator")
 			c.Check(singleArg != "" && c.term(m.fn, call.Common().Args[2]) == singleArg, fmt.Sprintf("right-side-call#%d/passes-single", n), c.W.Pos(call.Pos()), "single is passed on", "single flag not passed on")
 		}
 	}
-	c.Check(n == 2, "right-side-call/sites", c.W.FuncPos(be), "two continuation sites (after a parenthesised group, after a leaf)", fmt.Sprintf("found %d calls of parseRightSideExpression in parseBooleanExpression, expected 2", n))
+	// two continuation sites (after a parenthesised group, after a leaf), possibly through one shared helper
+	nSites := 0
+	for _, m := range c.unitOf(be) {
+		for range callsToIn(m.fn, rs) {
+			if m.fn == be {
+				nSites++
+			} else {
+				nSites += len(callsToIn(be, m.fn))
+			}
+		}
+	}
+	c.Check(nSites == 2, "right-side-call/sites", c.W.FuncPos(be), "two continuation sites (after a parenthesised group, after a leaf)", fmt.Sprintf("found %d continuation sites of parseRightSideExpression in parseBooleanExpression, expected 2", nSites))
 	// single leaf returns the leaf itself
 	okSingle := false
 	for _, r := range returnsOf(be) {
